@@ -1,7 +1,7 @@
 """C02 BPE tokenization is lossless for every well-formed table: id-space agreement and byte provenance."""
 from analysis.engine import rule, AnchorMissing
 from analysis import cfg
-from analysis.sym import sym, show_in, nosite, peel, core, walk, ret_values, args_of
+from analysis.sym import sym, show_in, nosite, peel, core, walk, ret_values, args_of, loop_source
 from analysis.pat import match, Call, Cap, ANY, Pred, Const, has, chain_names
 from rules.common import body_for, bpe_body, closure_of, BPE, find_pop_loop
 from rules import bpe_ids
@@ -123,7 +123,7 @@ def r4(ctx):
     nx = [t for t in b.calls(r'::next$')]
     good = False
     for t in nx:
-        src, names = chain_names(sym(b, t.args[0]))
+        src, names = chain_names(loop_source(b, t))
         if match(src, ('arg', 2, ANY)) and not [n_ for n_ in names if n_ in ('rev', 'sorted', 'skip', 'step_by', 'filter', 'take')]:
             good = True
     ctx.require(good, b, 'id-order', 'ids are visited in the given order (plain iteration over token_ids)', None)
